@@ -32,6 +32,18 @@ def discharge(F, inst, ev, kind):
     if fn is None:
         return None, "function body not found"
     pv = inst.get("pv") or ""
+    if kind in ("assert:overflow:Add", "assert:overflow:Sub", "assert:overflow:Mul"):
+        # arithmetic on literals / named constants: the operands are known, the result is checked against the type's range
+        for x in node_at(fn, ev["sp"]):
+            if x.get("k") == "binary" and x.get("op") in ("+", "-", "*"):
+                a, b = _const_int(F, x["l"]), _const_int(F, x["r"])
+                ty = (x.get("ty") or "").strip("&")
+                rng = {"u8": (0, 255), "u16": (0, 65535), "u32": (0, 2 ** 32 - 1), "u64": (0, 2 ** 64 - 1), "usize": (0, 2 ** 32 - 1),
+                       "i8": (-128, 127), "i16": (-32768, 32767), "i32": (-2 ** 31, 2 ** 31 - 1), "i64": (-2 ** 63, 2 ** 63 - 1), "isize": (-2 ** 31, 2 ** 31 - 1)}.get(ty)
+                if a is not None and b is not None and rng is not None:
+                    v = a + b if x["op"] == "+" else a - b if x["op"] == "-" else a * b
+                    if rng[0] <= v <= rng[1]:
+                        return "B-const-arith", "%d %s %d = %d: constant operands, within %s" % (a, x["op"], b, v, ty)
     if kind == "assert:overflow:Add":
         at = node_at(fn, ev["sp"]) if inst.get("pv") == "user" else []
         if at and not any(x.get("k") == "binary" for x in at):
@@ -102,7 +114,7 @@ def _const_int(F, n):
     v = H.lit(n)
     if isinstance(v, int) and not isinstance(v, bool):
         return v
-    if n.get("k") == "path" and (n.get("res") or {}).get("rk", "").startswith("Const") and n["res"].get("krate") == "ctap_types":
+    if n.get("k") == "path" and (n.get("res") or {}).get("rk", "").startswith(("Const", "AssocConst")) and n["res"].get("krate") == "ctap_types":
         v = F.const_value(n["res"]["path"])
         return v if isinstance(v, int) and not isinstance(v, bool) else None
     return None
